@@ -128,11 +128,19 @@ def check_step(ck, rng, spec, cfg, case_key):
     # ---- oracle pieces evaluated at the parameters the step is given
     Jref, r0, spread = optspy.fd_jacobian(model, data, targets_list)
     before = optspy.param_snapshot(model)
-    okc, ret = ck.call("assemble", regime, entry, lambda: opt.step(data, target=target,
-                                                                   weight=weights if (cfg["weight"] and cfg["weight_at"] == "step") else None), witness=wit)
-    ck.count("assemble", regime, key=case_key)
-    if not okc:
+    try:
+        ret = opt.step(data, target=target, weight=weights if (cfg["weight"] and cfg["weight_at"] == "step") else None)
+    except Exception as e:  # noqa
+        big = [float(e_["x"].abs().max()) for e_ in trace.of("SOLVE") if "x" in e_]
+        if big and not (max(big) < 1e3):
+            # an indefinite / nearly singular clamped system produced an astronomically large (or non-finite) step and the
+            # model left the domain of its own operations: nothing of the property is decidable past that point
+            ck.note_add("diverged_after_huge_step", 1)
+            return
+        import traceback
+        ck.violation("assemble", regime, entry, "raised:" + type(e).__name__, dict(wit, exception=repr(e)[:300], traceback=traceback.format_exc(limit=-5)[-1200:]))
         return
+    ck.count("assemble", regime, key=case_key)
     after = optspy.param_snapshot(model)
     cor = sorted(trace.of("CORRECT"), key=lambda e: e["idx"])
     solves = trace.of("SOLVE")
@@ -207,13 +215,16 @@ def check_step(ck, rng, spec, cfg, case_key):
     # ---- (4) the update: addition / retraction, frozen parameters untouched
     upd = trace.of("UPDATE")
     accepted = None
+    pre_trial = before
     if cfg["opt"] == "GN":
         accepted = upd[0]["step"] if upd else None
     else:
         net = [u for u in upd]
-        # the last UPDATE that is not cancelled by a following restore (-D) is the accepted one
+        # the last UPDATE that is not cancelled by a following restore (-D) is the accepted one; it acts on the
+        # parameters as restored after the rejected trials (equal to the given ones up to retraction round-off: C08)
         if net and (len(net) % 2 == 1):
             accepted = net[-1]["step"]
+            pre_trial = net[-1]["before"]
     names = [n for n, _ in model.named_parameters()]
     kinds = dict(zip([f"p{i}" for i in range(len(model.kinds))], model.kinds))
     ck.count("update", regime, key=case_key)
@@ -228,15 +239,28 @@ def check_step(ck, rng, spec, cfg, case_key):
         for n, d in zip(train, parts):
             kd = kinds[n]
             if kd == "R" or kd in lie.ALGS:
-                want = before[n] + d.reshape(before[n].shape)
+                want = pre_trial[n] + d.reshape(before[n].shape)
                 ck.ratio("update", regime, float((after[n] - want).abs().max()), 1e-13 * (1 + float(want.abs().max())), entry,
                          "euclidean_or_algebra_parameter_not_updated_by_addition", dict(wit, param=n, kind=kd))
             else:
-                Mw = ref_update(kd, before[n], d)
+                Mw = ref_update(kd, pre_trial[n], d)
                 Mg = L.group_matrix(kd, after[n].reshape(-1, after[n].shape[-1]).double().numpy())
                 sc = float(np.abs(Mw).max())
-                ck.ratio("update", regime, float(np.abs(Mg - Mw).max()), 1e-10 * (1 + sc), entry,
-                         "group_parameter_not_updated_by_left_retraction", dict(wit, param=n, kind=kd))
+                dmax = float(d.abs().max()) if d.numel() else 0.0     # angle / scale error of Exp grows with |delta|
+                if not (dmax < 20):
+                    ck.note_add("retraction_not_judged_step_too_large", 1)
+                    continue
+                # block tolerances of C01 (the retraction is Exp(delta) @ X): rotation/scale block at a multiple of eps,
+                # translation block at sqrt(eps) relative (the accuracy C01 states for Exp's translation part)
+                u_ = 2.0 ** -52
+                e_rot = float(np.abs(Mg[:, :3, :3] - Mw[:, :3, :3]).max())
+                e_tr = float(np.abs(Mg[:, :3, 3] - Mw[:, :3, 3]).max())
+                s_rot = float(np.abs(Mw[:, :3, :3]).max())
+                s_tr = float(np.abs(Mw[:, :3, 3]).max()) + dmax * max(1.0, s_rot)
+                wfn = lambda: dict(wit, param=n, kind=kd, delta=d.tolist(), trials=len(solves), before=pre_trial[n].tolist(), after=after[n].tolist())
+                ck.ratio("update", regime, e_rot, 256 * u_ * (1 + s_rot) * (1 + dmax), entry, "group_parameter_not_updated_by_left_retraction", wfn)
+                ck.ratio("update", regime, e_tr, 8 * np.sqrt(u_) * (s_tr + 1e-300) + 256 * u_ * (1 + s_tr), entry,
+                         "group_parameter_not_updated_by_left_retraction", wfn)
                 ck.mark("update/group_retraction")
     elif cfg["opt"] == "LM":
         # every trial was rejected (or the solver raised): parameters as given, up to retraction round-off
